@@ -349,6 +349,37 @@ class Top(Component):
         t = t ^ m.out
       s.o10 @= t
 
+    # constraints whose BLOCK side is a block of a child: against a signal of the parent and against a method port of another child
+    s.add_constraints(
+      U(s.l[0].get_update_block("up_ff_seen")) < RD(s.w),
+      U(s.l[1].get_update_block("up_ff_seen")) < WR(s.w),
+      M(s.a.touch) < U(s.l[1].get_update_block("up_lb_seen")),
+    )
+
+    # a function of the top that loops over the list of children
+    s.o11 = OutPort(Bits4)
+
+    @s.func
+    def f_loop():
+      t = Bits4(0)
+      for m in s.l:
+        t = t ^ m.out
+      s.o11 @= t
+
+    @update
+    def up_func_loop():
+      f_loop()
+
+    # second references (plain Python bookkeeping) to objects of the children, used by a block
+    s.a_out_ref = s.a.out
+    s.l_outs = [m.out for m in s.l]
+    s.first = s.l[0]
+    s.o12 = OutPort(Bits4)
+
+    @update
+    def up_refs():
+      s.o12 @= s.a_out_ref ^ s.l_outs[1] ^ s.first.lb_seen
+
     @update
     def up_slices():
       s.o7 @= concat(s.a.out[1:3], s.l[0].out[3:4], s.mid.b.lb_seen[0])   # slices of child ports that occur ONLY in this block
